@@ -333,7 +333,54 @@ def check(ctx, run):
                         break
             run.ob("R4", inst, g.site, not why, witness=wit[:4], what=why)
 
+    class Halt(Exception):
+        pass
+    NINL = {g.qn for g in prog.functions.values() if g.qn.startswith("MockNamedValue::")}
+
+    def fold_getter(g, tag, member, v):
+        def cstr_equal(*a_):
+            e_, a2 = a_[1], a_[2]
+            if isinstance(e_, tuple) and isinstance(a2, tuple) and e_[1] == a2[1]:
+                return 0
+            raise Halt()
+        ev = Evaluator(prog, g, env={"type_": ("str", tag), "value_." + member: v},
+                       calls=string_hooks({"UtestShell::getCurrent": lambda *a_: 1, "UtestShell::assertCstrEqual": cstr_equal, "UtestShell::getCurrentTestTerminator": lambda *a_: 2}))
+        ev.pass_object = True
+        ev.inline = NINL - {g.qn} - set(ev.calls)
+        try:
+            ev.run_blocks(g.entry, max_steps=600)
+        except Halt:
+            return "failed"
+        r = getattr(ev, "ret", None)
+        if isinstance(r, tuple) and r and r[0] == "unknown":
+            raise Unknown(r[1])
+        return r
     for gname, own in GETTERS.items():
-        getter_check(gname, own, INT_TAGS)
+        fs = [f for f in prog.fns("MockNamedValue::" + gname)]
+        if len(fs) != 1:
+            raise AnalysisBroken("getter %s not found" % gname)
+        g = fs[0]
+        run.analysed(g)
+        for t in INT_TAGS:
+            inst = "%s on a stored %s" % (gname, t)
+            member, ctype = tab[t][0], tab[t][1]
+            why, outcomes = "", set()
+            for v in boundary(*type_range(prog, ctype)):
+                try:
+                    r = fold_getter(g, t, member, v)
+                except Unknown as u:
+                    fm = re.search(r"value_\.(\w+)", str(u))
+                    if fm:
+                        why = "returns value_.%s for a value stored as %s (its member is value_.%s) without failing the test" % (fm.group(1), t, member)
+                    else:
+                        run.broke("C09.R4: %s cannot be folded for a stored %s: %s" % (gname, t, u))
+                    break
+                outcomes.add("failed" if r == "failed" else "value")
+                if r != "failed" and r != v:
+                    why = "conversion of value_.%s is not value-preserving: a stored %s %d is returned as %s without failing the test: the getter can return a different number" % (member, t, v, r)
+                    break
+            if not why and t == own and "value" not in outcomes:
+                why = "a value stored under the getter's own type fails the test"
+            run.ob("R4", inst, g.site, not why, witness=sorted(outcomes), what=why)
     for gname, own in OTHER_GETTERS.items():
         getter_check(gname, own, [own] + [t for t in ("int", "double", "void*") if t != own][:2])
